@@ -16,6 +16,7 @@
 
 #include <masa.h>
 #include <cerrno>
+#include <cfenv>
 #include <cmath>
 #include <csignal>
 #include <cstdio>
@@ -162,6 +163,7 @@ static std::string live_json()
   return buf;
 }
 // finish the event of the call in progress
+static int g_ambient = 0;
 static void finish(const std::string& extra, const std::string& end, const std::string* out_override = 0)
 {
   std::string out = out_override ? *out_override : captured();
@@ -449,6 +451,14 @@ static void do_call(const std::vector<std::string>& f, bool capi)
     g_pending += ",\"v\":" + jstr(hexs<Scalar>(v));
     int r = lib([&]{ return capi ? masa_test_default(double(v)) : MASA::masa_test_default<Scalar>(v); });
     extra = "\"ret\":" + std::to_string(r);
+  } else if (op == "ambient") {
+    // the environment's step: process-global C state the library neither owns nor may depend on -- errno left behind by an
+    // earlier (failed) library call of the caller, the floating-point exception flags.  No MASA function is called.
+    // It stays that way (re-established before every following call) until the next ambient step.
+    g_ambient = f.size() > 3 && f[3] == "erange" ? ERANGE : f.size() > 3 && f[3] == "clear" ? 0 : EDOM;
+    if (!g_ambient) { feclearexcept(FE_ALL_EXCEPT); errno = 0; }
+    extra = "\"ret\":0";
+    finish(extra, "ret"); return;
   } else {
     finish("\"skip\":true", "unknownop"); return;
   }
@@ -462,6 +472,17 @@ static void do_call(const std::vector<std::string>& f, bool capi)
 }
 
 #ifndef DRIVER_NO_MAIN
+// the calls of a "late" section are made from an atexit handler that was registered BEFORE the first MASA call (a program
+// that reads a parameter or evaluates in its own clean-up code): the library's registries must still be alive then.
+static std::vector<std::vector<std::string> > g_late;
+static bool g_main_done = false;
+static void run_line(const std::vector<std::string>& f);
+static void run_late()
+{
+  if (!g_main_done) return;
+  for (size_t i = 0; i < g_late.size(); ++i) run_line(g_late[i]);
+  g_late.clear();
+}
 int main(int argc, char** argv)
 {
   if (argc < 3) { fprintf(stderr, "usage: driver script log [fill]\n"); return 64; }
@@ -475,17 +496,30 @@ int main(int argc, char** argv)
   fflush(stdout);
   dup2(g_cap, 1);
   on_exit(on_exit_handler, 0);
+  atexit(run_late);
   std::set_terminate(on_terminate);
   signal(SIGSEGV, on_signal); signal(SIGBUS, on_signal); signal(SIGFPE, on_signal); signal(SIGABRT, on_signal); signal(SIGILL, on_signal);
 
   std::ifstream in(argv[1]);
   std::string line;
+  bool late = false;
   while (std::getline(in, line)) {
     if (line.empty() || line[0] == '#') continue;
     std::vector<std::string> f = split(line);
+    if (f[0] == "late") { late = true; continue; }
+    if (late) { g_late.push_back(f); continue; }
+    run_line(f);
+  }
+  wr("{\"i\":" + std::to_string(++g_seq) + ",\"op\":\"end\"," + live_json() + "}\n");
+  g_main_done = true;
+  return 0;
+}
+static void run_line(const std::vector<std::string>& f)
+{
+  {
     ++g_seq;
-    if (f[0] == "reset") { wr("{\"i\":" + std::to_string(g_seq) + ",\"op\":\"reset\"}\n"); continue; }
-    if (f.size() < 2) continue;
+    if (f[0] == "reset") { wr("{\"i\":" + std::to_string(g_seq) + ",\"op\":\"reset\"}\n"); return; }
+    if (f.size() < 2) return;
     bool ld = f[1] == "ld"; bool capi = f.size() > 2 && f[2] == "c";
     // the event prefix: everything known before the call
     std::string e = "{\"i\":" + std::to_string(g_seq) + ",\"op\":" + jstr(f[0]) + ",\"p\":" + jstr(ld ? "ld" : "d") + ",\"api\":" + jstr(capi ? "c" : "cxx");
@@ -494,6 +528,7 @@ int main(int argc, char** argv)
     e += "]";
     e += ld ? pre_fields<long double>(f) : pre_fields<double>(f);
     g_pending = e; g_in_call = true;
+    if (g_ambient) { feraiseexcept(FE_INVALID | FE_DIVBYZERO | FE_OVERFLOW | FE_UNDERFLOW | FE_INEXACT); errno = g_ambient; }
     try {
       if (ld) do_call<long double>(f, false); else do_call<double>(f, capi);
     } catch (int code) {
@@ -502,7 +537,5 @@ int main(int argc, char** argv)
       finish("", "throwX");
     }
   }
-  wr("{\"i\":" + std::to_string(++g_seq) + ",\"op\":\"end\"," + live_json() + "}\n");
-  return 0;
 }
 #endif // DRIVER_NO_MAIN
